@@ -344,3 +344,24 @@ PROPS["C04"] = {
         lane("TestReadback", "readback", 300, 1500, shards=16, must_classes=["rules:string", "rules:integer", "rules:array", "list:string", "key:custom", "flatten", "description"]),
     ],
 }
+
+PROPS["C16"] = {
+    "pkg": "c16",
+    "level": "exploration",
+    "technique": "property-based testing (rapid) + enumerated recursion shapes and field kinds per request position; staged totality oracle plus a content oracle computed from the model",
+    "level_text": ("Generated bundles (services, topics, entities, every field type, imports) and two enumerated families - 5 recursion shapes x {GET,POST} x {request,response}, "
+                   "18 field kinds x {query, body, response, path} - go through the whole downstream chain: CompilePackage -> PrintFile -> protosrc.ReadFSImage -> "
+                   "structure.APIFromImage -> j5client.APIFromSource -> codec.ProtoToJSON(client API) -> export.BuildSwagger -> json.Marshal. Every stage must return without "
+                   "error, panic or hang (60 s; fatal errors are attributed through the journal) and emit well-formed JSON. From the model alone the check then requires: "
+                   "exactly the declared services and methods, declared verb and :jsonName path, path parameters = request properties named in the path, remaining "
+                   "properties in the query (GET) or the body (other verbs), declared response properties, and every schema reachable from a method present in the client API."),
+    "level_note": "Sampled plus two exhaustive small families. Entities are exercised for totality here; their content is C17's subject.",
+    "rule": ("pipeline: j5sgen.Draw with entities; recursive / kinds: enumerated. Non-trivial: the bundle has a service with a path parameter or an entity; every enumerated case. "
+             "Distinct by hash of the sources / (shape, verb, position)."),
+    "assumptions": [],
+    "lanes": [
+        lane("TestRecursive", "recursive", 0, 0, norapid=True),
+        lane("TestKinds", "kinds", 0, 0, norapid=True),
+        lane("TestPipeline", "pipeline", 200, 1200, shards=16, must_classes=["service", "entity", "path-parameter"]),
+    ],
+}
